@@ -149,6 +149,15 @@ impl Sut for LI {
             _ => Cmd::new("insert", vec![4, ix]),
         })
     }
+    fn aged(base: &[(A, u64)]) -> Option<Self> {
+        // every actor's latest op was the delete of an element that is gone: empty sequence, clock = base
+        let mut l = List::new();
+        for (a, b) in base {
+            let id = crdts::Identifier::between(None, None, crdts::OrdDot { actor: *a, counter: *b });
+            l.apply(list::Op::Delete { id, dot: crdts::Dot::new(*a, *b) });
+        }
+        Some(l)
+    }
     fn gen(&self, actor: A, cmd: &Cmd, sh: &mut Shadow, _old: &Self) -> Option<Gen<Self::Op>> {
         let before: Vec<u32> = self.read::<Vec<&u32>>().into_iter().cloned().collect();
         let len = before.len();
